@@ -143,6 +143,7 @@ def impl_table(repo: Repo) -> Dict[str, Impl]:
 class Cell:
     def __init__(self, cls: str, dunder: str, owner: str, node: Optional[FuncNode], modname: Optional[str]):
         self.cls, self.dunder, self.owner, self.node, self.modname = cls, dunder, owner, node, modname
+        self.nnode: Optional[FuncNode] = node
 
     @property
     def is_repo(self) -> bool:
@@ -164,10 +165,17 @@ class Cell:
 def cell(repo: Repo, cls: str, dunder: str) -> Cell:
     owner, node = repo.resolve_method(cls, dunder)
     modname = None
+    nnode = node
     if node is not None:
         found = repo.find_class(owner)
         modname = found[0] if found else None
-    return Cell(cls, dunder, owner, node, modname)
+        if found:
+            from .inline import normalize
+
+            nnode = normalize(repo.mod(found[0]), found[1], node)
+    c = Cell(cls, dunder, owner, node, modname)
+    c.nnode = nnode  # the method with its private helpers expanded in place
+    return c
 
 
 # which builtin slots exist (so that a missing slot is TypeError, not a value)
